@@ -30,9 +30,11 @@ def showCell (isFloat : Bool) (isCount : Bool) (isReal : Bool := false) (interva
     else fbits (Float.ofInt num / Float.ofInt den)
   | .lin real a b tp tn t =>
     -- the engine's own formula (query/linear.go), in IEEE doubles
+    -- (a count is an integer whatever the field's type)
+    let fl := isFloat && !isCount
     let val (x : Int × Int) : Float :=
-      if isFloat then (Float.ofInt x.1 / 1024) / Float.ofInt x.2 else Float.ofInt x.1 / Float.ofInt x.2
-    if isFloat || real then
+      if fl then (Float.ofInt x.1 / 1024) / Float.ofInt x.2 else Float.ofInt x.1 / Float.ofInt x.2
+    if fl || real then
       -- the engine interpolates over window numbers (timestamp / interval)
       let m := (val b - val a) / Float.ofInt (tn / interval - tp / interval)
       fbits (m * Float.ofInt (t / interval - tp / interval) + val a)
